@@ -564,6 +564,14 @@ func (s *Statement) Commit() error {
 			err = s.commitAllocate(taskInfo)
 			if err != nil {
 				log.InfraLogger.Errorf("Failed to allocate task. error: %s", err.Error())
+				// The remaining operations will never be committed: undo them, otherwise their virtual
+				// allocations stay in the session and keep influencing the decisions of the rest of the cycle.
+				for j := len(s.operations) - 1; j > i; j-- {
+					if s.operations[j].Name() == undo {
+						continue
+					}
+					_ = s.undoOperation(j)
+				}
 				s.clearOperations()
 				return err
 			}
